@@ -12,6 +12,7 @@ import itertools
 import warnings
 
 from framework import Issue
+import fam_adapters_fail
 from world import Item, Susp, UserExc, drive, exc_name, asyncstdlib
 
 warnings.filterwarnings("ignore", category=RuntimeWarning, message="coroutine .* was never awaited")
@@ -598,6 +599,8 @@ def _obs_syncseq(case):
 
 
 def observe(case):
+    if case.get("family") == "adaptersfail":
+        return fam_adapters_fail.observe(case)
     t = case["t"]
     if t == "syncseq":
         return _obs_syncseq(case)
@@ -624,6 +627,8 @@ def _item_json(i, s):
 
 
 def model_request(case):
+    if case.get("family") == "adaptersfail":
+        return fam_adapters_fail.model_request(case)
     t = case["t"]
     if t == "syncseq":
         return None     # oracle-only: every call is an instance of the single-call statement C19_sync_same
@@ -858,6 +863,8 @@ def _judge_sync(case, obs, model):
 
 
 def judge(case, obs, model):
+    if case.get("family") == "adaptersfail":
+        return fam_adapters_fail.judge(case, obs, model)
     if case["t"] == "syncseq":
         if obs["impl"] != obs["ref"]:
             return [Issue("oracle", {"impl": obs["impl"], "native": obs["ref"], "styles": case["styles"]},
@@ -872,6 +879,8 @@ def judge(case, obs, model):
 
 
 def features(case, obs):
+    if case.get("family") == "adaptersfail":
+        return fam_adapters_fail.features(case, obs)
     t = case["t"]
     f = ["t=" + t]
     if t in ("any_iter", "await_each"):
@@ -897,6 +906,8 @@ def features(case, obs):
 
 
 def nontrivial(case, obs):
+    if case.get("family") == "adaptersfail":
+        return fam_adapters_fail.nontrivial(case, obs)
     t = case["t"]
     if t in ("any_iter", "await_each"):
         return any(out[0] in ("item", "raised") for _, out in obs["impl"])
@@ -1070,6 +1081,9 @@ def _syncseq_cases():
 
 def cases(tier, rng):
     yield from _syncseq_cases()
+    # failure / cancellation / early-end paths with the ordered await log (Machines/AdaptersFail.lean)
+    for c in fam_adapters_fail.cases(rng, 2500 if tier == "quick" else 30000):
+        yield dict(c, t="adaptersfail")
     yield from _gen_cases(tier)
     yield from _odd_cases()
     yield from _apply_cases(tier)
